@@ -66,7 +66,7 @@ PathLen(w) == FoldLeft(LAMBDA a, i : a + Abs(w[i + 1] - w[i]), 0, [i \in 1..(Len
 (* where they cannot (a spike such as 10^6 in the window) the value is OVF: no expectation.    *)
 MaxAbs(w) == FoldLeft(LAMBDA a, x : IMax(a, Abs(x)), 0, w)
 Mean(w)   == Norm(SumS(w), Len(w))
-TooBig(w, lim) == MaxAbs(w) >= lim \div (Len(w) * Len(w))      \* Len^2 * MaxAbs >= lim, without overflowing
+TooBig(w, lim) == Len(w) >= 46340 \/ MaxAbs(w) >= lim \div (Len(w) * Len(w))      \* Len^2 * MaxAbs >= lim, without overflowing
 WMean(w)  == IF TooBig(w, 1000000000) THEN OVF
              ELSE Norm(WSum(w), (Len(w) * (Len(w) + 1)) \div 2)     \* newest (last) heaviest
 PVar(w)   == IF MaxAbs(w) >= 46340 \div Len(w) THEN OVF                 \* population variance
